@@ -11,7 +11,7 @@ import (
 
 func init() {
 	register(&propCheck{id: "C02", needRoot: true, run: checkC02,
-		explanation: "Decided statically: (1) FORMAT — the hash pre-image emitted on every success path of Node.writeHashBytes, ProofInnerNode.Hash and ProofLeafNode.Hash equals the pinned IAVL+ layout (height, size, version, then key+sha256(value) for a leaf or left-hash+right-hash for an inner node), which is data in the checker; (2) FLOW — the version fed into every memoising hash computation (and into the proof path builder) is the result of WorkingVersion(), a node's own stored version, or a parameter that is itself such a sink; a version recomputed as `tree.version+1` is NOT accepted because it disagrees with WorkingVersion() when an initial version is configured and the memo then survives into the commit — today two read-only entry points do that: KNOWN FINDINGS; (3) EFFECT — no function reachable from the read-only API writes any field of a node that is not freshly allocated there, except the hash memo under its `hash == nil` guard. Added in the build round: TYPESTATE — pre-image fields are written only on freshly copied nodes; DOM — Remove of an absent key changes nothing; TABLE — balance / insert / rotate / remove decision tables; OWN-node-version — a node key (whose version is hashed into the node) is assigned only to a node created in that function, to a node that has none yet, or as a re-keying that copies the node's own version. NOT decided: that insertion, removal and rebalancing produce the reference shape, hence the hash VALUES; equality across reopen/prune/import."})
+		explanation: "Decided statically: (1) FORMAT — the hash pre-image emitted on every success path of Node.writeHashBytes, ProofInnerNode.Hash and ProofLeafNode.Hash equals the pinned IAVL+ layout (height, size, version, then key+sha256(value) for a leaf or left-hash+right-hash for an inner node), which is data in the checker; (2) FLOW — the version fed into every memoising hash computation (and into the proof path builder) is the result of WorkingVersion(), a node's own stored version, or a parameter that is itself such a sink; a version recomputed as `tree.version+1` is NOT accepted because it disagrees with WorkingVersion() when an initial version is configured and the memo then survives into the commit — today two read-only entry points do that: KNOWN FINDINGS; (3) EFFECT — no function reachable from the read-only API writes any field of a node that is not freshly allocated there, except the hash memo under its `hash == nil` guard. Added in the build round: TYPESTATE — pre-image fields are written only on freshly copied nodes; DOM — Remove of an absent key changes nothing; TABLE — balance / insert / rotate / remove decision tables; OWN-node-version — a node key (whose version is hashed into the node) is assigned only to a node created in that function, to a node that has none yet, or as a re-keying that copies the node's own version. NOT decided: that insertion, removal and rebalancing produce the reference shape, hence the hash VALUES; equality across reopen/prune/import. Rules added in the later seeding rounds (each listed with what it decides in this file's rule table) are described in DESIGN.md §3 \"Third and fourth seeding rounds\" and Appendix C3–C5."})
 }
 
 var pinnedHashPreimage = []string{
